@@ -170,3 +170,128 @@ def rand_conn(ctx, rng, depth, top=True, digits=6, kind=None):
 def rand_circuit(ctx, rng, depth=2, digits=6):
     from pyimpspec import Circuit
     return Circuit(rand_conn(ctx, rng, depth, digits=digits, kind="s"))
+
+
+# ---- grammar-directed printer of alternative spellings (the generator is the oracle) ---------------
+def num_text(x, rng):
+    if x == float("inf") or x == float("-inf"):
+        return "inf"
+    r = rng.random()
+    if float(x).is_integer() and abs(x) < 1e6 and r < 0.4:
+        return str(int(x))
+    if r < 0.7:
+        return repr(float(x)).replace("e+", rng.choice(["e+", "e", "E"]))
+    s = "%.17e" % x
+    return s.upper() if rng.random() < 0.5 else s
+
+
+def is_default_param(row, el, k):
+    return (el.get_value(k) == row["vals"][k] and el.get_lower_limit(k) == row["lo"][k]
+            and el.get_upper_limit(k) == row["hi"][k] and el.is_fixed(k) == row["fx"][k])
+
+
+def ws(rng, p=0.25):
+    return rng.choice([" ", "  ", "\t", "\n"]) if rng.random() < p else ""
+
+
+def spell_element(ctx, el, rng, pcts):
+    from pyimpspec.circuit.base import Container
+    row = ctx.rows[ctx.idx[type(el)]]
+    parts = []
+    keys = list(row["keys"])
+    subs = el.get_subcircuits() if isinstance(el, Container) else {}
+    items = [("p", k) for k in keys] + [("s", k) for k in subs]
+    rng.shuffle(items)
+    for kind, k in items:
+        if kind == "p":
+            if is_default_param(row, el, k) and rng.random() < 0.7:
+                continue
+            v, lo, hi, fx = el.get_value(k), el.get_lower_limit(k), el.get_upper_limit(k), el.is_fixed(k)
+            txt = k + ws(rng) + "=" + ws(rng) + num_text(v, rng) + (rng.choice("Ff") if fx else "")
+            lo_def, hi_def = lo == row["lo"][k], hi == row["hi"][k]
+            pc = pcts.get((id(el), k))
+
+            def lim(x, which):
+                if pc and pc[which] is not None and rng.random() < 0.8:
+                    return str(pc[which]) + ws(rng) + "%"
+                return num_text(x, rng)
+            if lo_def and hi_def and rng.random() < 0.6:
+                pass
+            elif hi_def and rng.random() < 0.6:
+                txt += ws(rng) + "/" + ws(rng) + lim(lo, 0)
+            elif lo_def and rng.random() < 0.6:
+                txt += ws(rng) + "/" + ws(rng) + "/" + ws(rng) + lim(hi, 1)
+            else:
+                txt += ws(rng) + "/" + ws(rng) + lim(lo, 0) + ws(rng) + "/" + ws(rng) + lim(hi, 1)
+            parts.append(txt)
+        else:
+            con = subs[k]
+            default = row["subdefs"][k]
+            same_as_default = (con is None and default is None) or (
+                con is not None and default is not None and con.to_string(17) == default.to_string(17))
+            if same_as_default and rng.random() < 0.6:
+                continue
+            if con is None:
+                val = rng.choice(["open", "inf"])
+            elif len(con.get_elements()) == 0:
+                val = rng.choice(["short", "zero"])
+            else:
+                from pyimpspec.circuit.series import Series
+                inner = con._elements
+                if isinstance(con, Series) and rng.random() < 0.5 and not (
+                        # a bare list must start with an element symbol, and must not be a keyword
+                        not hasattr(inner[0], "get_symbol")):
+                    val = "".join(spell_node(ctx, x, rng, pcts) for x in inner)
+                else:
+                    val = spell_conn(ctx, con, rng, pcts)
+            parts.append(k + ws(rng) + "=" + ws(rng) + val)
+    label = el.get_label()
+    if not parts and not label:
+        return row["symbol"]
+    txt = row["symbol"] + ws(rng, 0.1) + "{" + ws(rng) + ("," + ws(rng)).join(p + ws(rng) for p in parts)
+    if label:
+        txt += ":" + ws(rng) + label + ws(rng, 0.3)
+    return txt + "}"
+
+
+def spell_node(ctx, x, rng, pcts):
+    from pyimpspec.circuit.base import Connection
+    if isinstance(x, Connection):
+        return spell_conn(ctx, x, rng, pcts)
+    return spell_element(ctx, x, rng, pcts) + ws(rng, 0.15)
+
+
+def spell_conn(ctx, con, rng, pcts):
+    from pyimpspec.circuit.series import Series
+    o, c = ("[", "]") if isinstance(con, Series) else ("(", ")")
+    return o + ws(rng) + "".join(spell_node(ctx, x, rng, pcts) for x in con._elements) + c + ws(rng, 0.15)
+
+
+def spell_circuit(ctx, circuit, rng, pcts):
+    top = circuit._elements
+    if rng.random() < 0.5 and len(top._elements) > 0:
+        body = "".join(spell_node(ctx, x, rng, pcts) for x in top._elements)   # implicit outer series
+    else:
+        body = spell_conn(ctx, top, rng, pcts)
+    hdr = rng.choice(["", "", "!V=1!", "!v=1!", "!V=1.0!", "! V = 1 !"])
+    return ws(rng) + hdr + body + ws(rng)
+
+
+def apply_percent_limits(ctx, circuit, rng):
+    """give some parameters limits that are exact percentages of the value; returns {(id(el), key): (pct_lo, pct_hi)}"""
+    pcts = {}
+    for el in circuit.get_elements(recursive=True):
+        row = ctx.rows[ctx.idx[type(el)]]
+        for k in row["keys"]:
+            v = el.get_value(k)
+            if rng.random() < 0.15 and v > 0:
+                pl, ph = rng.choice([10, 25, 50, 90]), rng.choice([110, 150, 200, 1000])
+                lo, hi = v * pl / 100, v * ph / 100
+                if lo < hi:
+                    try:
+                        el._set_limits({k: lo}, {k: hi})
+                        el.set_values(**{k: v})
+                        pcts[(id(el), k)] = (pl, ph)
+                    except Exception:
+                        pass
+    return pcts
